@@ -47,7 +47,7 @@ class C15(Prop):
                    'merge (self then other\'s new attributes; size(merge) = size(self)*size(extra)), contains, size / size(attrs) / size(str), canonical, sort by size and name '
                    '(permutation, non-decreasing key), __eq__, fromdict, __contains__, __getitem__, __iter__, __len__ and the set / product laws linking them.')
     rule = ('dataset case = (shape tuple: all 84 tuples of 1..3 sizes in 1..4) x (record mode: random, dups, boundary, empty) x (weights: none, float, float-with-zeros) x '
-            '(extra unused columns: 0 or 2) x seeds (quick 2, thorough 30); attribute names, their order, the column order, dtype and the records are drawn from the case seed; '
+            '(extra unused columns: 0 or 2) x seeds (quick 1, thorough 30); attribute names, their order, the column order, dtype and the records are drawn from the case seed; '
             'every ordered projection list and every proper drop set of the domain is evaluated inside the case. domain case = two seeded random domains over an 8-name pool '
             '(0..5 and 0..4 attributes, sizes 1..5, shared attributes agree) with seeded attribute lists incl. foreign names (quick 4032, thorough 60480). '
             'Records conform to the domain (values in 0..size-1). Not exhaustive: values, names and orders are random samples. '
@@ -59,7 +59,7 @@ class C15(Prop):
                    'the vector form of a projection onto the EMPTY attribute list is outside the generated family: numpy.histogramdd rejects a sample with 0 columns '
                    '(only the projected domain and the record count are checked there)',
                    'Domain.marginalize / invert / canonical are called with collections of names (list, tuple, set), not with a bare str (substring semantics)']
-    quick_budget_s = 80
+    quick_budget_s = 60
     thorough_budget_s = 900
     exhaustive = {'quick': False, 'thorough': False}
 
@@ -70,7 +70,7 @@ class C15(Prop):
     def cases(self, tier, seed):
         import numpy as np
         rng = np.random.RandomState(seed)
-        n_seeds, n_dom = (2, 4032) if tier == 'quick' else (30, 60480)
+        n_seeds, n_dom = (1, 4032) if tier == 'quick' else (30, 60480)
 
         def dataset_case(shape, mode, w, extra):
             names = [str(x) for x in rng.permutation(list(NAMES))[:len(shape)]]
